@@ -299,6 +299,17 @@ func o3Job(j Job) (res Result) {
 		if !check(cs, rejErr) || len(res.Viols) > 3 {
 			return
 		}
+		// ... and the node must still accept the honest proposal of this height right after THIS rejection (a later
+		// rejected block that runs to the end of its application could wipe what an aborted one left in memory)
+		if _, e := B.ValidateProposal(p, 0, false); e != nil {
+			viol("C07:node-rejection:honest-proposal-refused-after:"+cs.via+":"+cs.stage, fmt.Sprintf("state=%v cfg=%s: right after the rejection of case %s (%s) the honest proposal of the height is refused: %s",
+				recipeList(j.Path), cfg.name, cs.name, cs.via, strings.ReplaceAll(e.Error(), "\n", " ")), cs.name)
+			return
+		}
+		if post, se := snapNode(B); se == nil && (post.live != pre.live || post.version != pre.version) {
+			viol("C07:node-rejection:working-state-changed-by-honest-validation", fmt.Sprintf("state=%v cfg=%s case %s: validating (and dropping) the honest proposal changed the working state: %s", recipeList(j.Path), cfg.name, cs.name, stateDiff(post.live, pre.live)), cs.name)
+			return
+		}
 	}
 	// the honest proposal: validated twice (a re-validation must not see the first one), kept, certified, committed with the cached result
 	for i := 0; i < 2; i++ {
